@@ -25,7 +25,25 @@ func (w *MultiplexWriter) Write(p []byte) (n int, err error) {
 	return w.WriteMsg(MsgData, p)
 }
 
+// WriteMsg sends p with the specified tag. A single frame carries at most
+// maxMessageSize bytes (the length field of the header has only 24 bits, and
+// readers reject larger frames), so larger payloads are split into multiple
+// frames.
 func (w *MultiplexWriter) WriteMsg(tag uint8, p []byte) (n int, err error) {
+	rest := p
+	for len(rest) > maxMessageSize {
+		m, err := w.writeFrame(tag, rest[:maxMessageSize])
+		n += m
+		if err != nil {
+			return n, err
+		}
+		rest = rest[maxMessageSize:]
+	}
+	m, err := w.writeFrame(tag, rest)
+	return n + m, err
+}
+
+func (w *MultiplexWriter) writeFrame(tag uint8, p []byte) (n int, err error) {
 	header := uint32(mplexBase+tag)<<24 | uint32(len(p))
 	// log.Printf("len %d (hex %x)", len(p), uint32(len(p)))
 	// log.Printf("header=%v (%x)", header, header)
